@@ -20,7 +20,10 @@ fi
 cd /verif
 for c in "$@"; do
   echo "== check $c against the changed tree"
-  VERIF_REPO="$WT" tools/vcheck "$c" quick 2>/dev/null | grep -E "VIOLATION|KNOWN|OK|FAIL|broken|^  [a-z]" | head -12 | sed 's/^/   | /'
+  VERIF_REPO="$WT" tools/vcheck "$c" quick 2>/dev/null > /tmp/seed_chk_$$.log
+  grep -E "^VIOLATION|quick seed=|broken" /tmp/seed_chk_$$.log | head -12 | sed 's/^/   | /'
+  grep -E "^  [a-zA-Z]" /tmp/seed_chk_$$.log | grep -v broken | head -10 | cut -c1-240 | sed 's/^/   | /'
+  rm -f /tmp/seed_chk_$$.log
 done
 rm -f /tmp/seed_demo0_$$.log /tmp/seed_demo1_$$.log
 echo "== summary: demo unchanged=$d0 changed=$d1"
